@@ -390,6 +390,15 @@ func init() {
 						seqs = append(seqs, []Op{a, b})
 					}
 				}
+				// lookups around every operation: a lookup, any operation, then a lookup of every name (an answer must not
+				// come from anything a previous lookup left behind)
+				for _, x := range []string{"a", "b", "c"} {
+					for _, mid := range one {
+						for _, y := range []string{"a", "b"} {
+							seqs = append(seqs, []Op{{K: "q", A: x}, mid, {K: "q", A: y}})
+						}
+					}
+				}
 				c.Pool.Run(len(lists), func(d *Driver, li int) {
 					l := lists[li]
 					var qs []string
@@ -405,7 +414,24 @@ func init() {
 						sp := u.SearchParams()
 						ref := append([][2]string(nil), l...)
 						var done []string
+						died := false
 						for _, o := range seq {
+							if died {
+								break
+							}
+							func() {
+								defer func() {
+									if r := recover(); r != nil {
+										died = true
+										c.Report(Finding{Class: "violation", What: fmt.Sprintf("a SearchParams operation panicked (%v): %v on a URL parsed from %q", r, append(append([]string(nil), done...), o.String()), in),
+											Case: Case{Kind: "hist", Input: in, Ops: append(append([]string(nil), done...), o.String()), Family: "small-lists-exhaustive", Index: li*len(seqs) + si}})
+									}
+								}()
+								smallListProbe(sp, o)
+							}()
+							if died {
+								break
+							}
 							done = append(done, o.String())
 							cs := Case{Kind: "hist", Input: in, Ops: append([]string(nil), done...), Family: "small-lists-exhaustive", Index: li*len(seqs) + si}
 							switch o.K {
@@ -667,4 +693,14 @@ func hxAll(l []string) []string {
 		r[i] = hx(x)
 	}
 	return r
+}
+
+// smallListProbe runs the read-only part of an operation once, so that a panic inside the library is caught before the
+// operation proper is evaluated (Get / GetAll / Has for a lookup; nothing for the others)
+func smallListProbe(sp *url.SearchParams, o Op) {
+	if o.K == "q" {
+		_ = sp.Get(o.A)
+		_ = sp.GetAll(o.A)
+		_ = sp.Has(o.A)
+	}
 }
